@@ -348,6 +348,64 @@ fn of_results(rs: &Results) -> BTreeMap<String, GcovFile> {
     m
 }
 
+/// Named finding matcher `C08-single-block-line-outflow`: every difference is a line count, and for
+/// each differing line every function that lists the line does so in exactly one block occurrence
+/// (the `blocks.len() == 1` branch of `add_line_count`), grcov's count is the sum of those blocks'
+/// outgoing arc counts (the block counter), llvm-cov's is the sum of their incoming arc counts, and
+/// the two differ because the reconstructed flow is not conserved at such a block (LLVM 14 drops
+/// the arc and the counter of a split critical edge, so the measured counters are inconsistent).
+fn matches_inflow_outflow(
+    ours: &BTreeMap<String, GcovFile>,
+    theirs: &BTreeMap<String, GcovFile>,
+    fns: &[FnDump],
+) -> bool {
+    if ours.keys().ne(theirs.keys()) {
+        return false;
+    }
+    let mut any = false;
+    for (k, o) in ours {
+        let t = &theirs[k];
+        if o.lines.keys().ne(t.lines.keys()) {
+            return false;
+        }
+        let fo: Vec<(&String, bool)> = o.funcs.iter().map(|(n, c)| (n, *c > 0)).collect();
+        let ft: Vec<(&String, bool)> = t.funcs.iter().map(|(n, c)| (n, *c > 0)).collect();
+        if fo != ft {
+            return false;
+        }
+        for (l, n) in &o.lines {
+            if t.lines[l] == *n {
+                continue;
+            }
+            any = true;
+            let (mut inflow, mut outflow, mut broken) = (0u64, 0u64, false);
+            for f in fns.iter().filter(|f| &f.file == k) {
+                let occ: Vec<&BlockDump> = f
+                    .blocks
+                    .iter()
+                    .flat_map(|b| b.lines.iter().filter(|x| *x == l).map(move |_| b))
+                    .collect();
+                if occ.len() > 1 {
+                    return false;
+                }
+                // an unexecuted function contributes 0 on both sides
+                let executed = f.blocks.first().map(|b| b.outflow > 0).unwrap_or(false);
+                for b in occ {
+                    if executed {
+                        inflow += b.inflow;
+                        outflow += b.counter;
+                    }
+                    broken |= b.inflow != b.outflow;
+                }
+            }
+            if !(broken && outflow == *n && inflow == t.lines[l]) {
+                return false;
+            }
+        }
+    }
+    any
+}
+
 fn diff_gcov(ours: &BTreeMap<String, GcovFile>, theirs: &BTreeMap<String, GcovFile>) -> Option<String> {
     let ko: Vec<&String> = ours.keys().collect();
     let kt: Vec<&String> = theirs.keys().collect();
@@ -475,7 +533,19 @@ fn build_and_run(dir: &Path, p: &Program, profiles: &[Vec<String>]) -> Result<Co
     Ok(Compiled { dir: dir.to_path_buf(), gcno, singles, merged, gcov })
 }
 
+/// minimised witness of finding C08-single-block-line-outflow (replayed first on every run)
+const WITNESS_PROG: &str = "#include <stdlib.h>\nint main(int argc, char **argv) {\n  int a = argc > 1 ? atoi(argv[1]) : 0; int r = 0;\n  if ((r == 0 && a > a) || 4 > a) {\n    r++;\n  } r += 2;\n  return r & 1;\n}\n";
+
 fn compiled_stream(rep: &mut Report, rng: &mut Rng, reqs: &mut Vec<String>, pend: &mut Vec<(String, Value, String)>) {
+    {
+        let p = Program { main_c: WITNESS_PROG.to_string(), inc_h: "/* unused */\n".to_string() };
+        let profiles: Vec<Vec<String>> = vec![vec!["1".into()], vec![], vec!["7".into()], vec!["3".into()]];
+        let case = json!({"op": "program", "prog_c": p.main_c, "inc_h": p.inc_h, "profiles": profiles, "witness": true});
+        if let Ok(c) = build_and_run(&rep.workdir.join("witness"), &p, &profiles) {
+            rep.count("program.witness");
+            check_compiled(rep, &c, &case, reqs, pend, false);
+        }
+    }
     let n = rep.budget(10, 40);
     for i in 0..n {
         let p = gen_program(rng);
@@ -534,7 +604,14 @@ fn check_compiled(
                 if let Some(d) = diff_gcov(&ours, &c.gcov) {
                     let mut cj = case.clone();
                     cj["variant"] = json!(what);
-                    rep.fail("oracle", None, format!("Gcno::compute ({}) differs from llvm-cov gcov: {}", what, d), cj);
+                    let fns = run_dump(&c.gcno, ds).map(|d| dump_functions(&d)).unwrap_or_default();
+                    let finding = if matches_inflow_outflow(&ours, &c.gcov, &fns) {
+                        rep.count("program.finding.single_block_line_outflow");
+                        Some("C08-single-block-line-outflow")
+                    } else {
+                        None
+                    };
+                    rep.fail("oracle", finding, format!("Gcno::compute ({}) differs from llvm-cov gcov: {}", what, d), cj);
                 }
                 if sample {
                     rep.sample(json!({"program_lines": case["prog_c"].as_str().unwrap_or("").lines().count(),
